@@ -1,6 +1,7 @@
 package chanstate
 
 import (
+	"bufio"
 	"bytes"
 	"encoding/binary"
 	"errors"
@@ -157,7 +158,18 @@ func DeserializeHTLCEntries(r io.Reader) ([]*HTLCEntry, error) {
 		htlcIndexBlob tlv.OptionalRecordT[tlv.TlvType6, tlv.Blob]
 	)
 
+	// The list has no length prefix, it ends where the reader does. We
+	// buffer the reader so we can tell a clean end at an entry boundary
+	// from an entry that was cut short.
+	br := bufio.NewReader(r)
+
 	for {
+		// We've reached the end when hitting an EOF before the first
+		// byte of the next entry.
+		if _, err := br.Peek(1); errors.Is(err, io.EOF) {
+			break
+		}
+
 		var htlc HTLCEntry
 
 		customBlob := htlc.CustomBlob.Zero()
@@ -179,14 +191,11 @@ func DeserializeHTLCEntries(r io.Reader) ([]*HTLCEntry, error) {
 			return nil, err
 		}
 
-		// Read the HTLC entry.
-		parsedTypes, err := ReadTlvStream(r, tlvStream)
+		// Read the HTLC entry. An EOF from here on means the entry is
+		// truncated, dropping it silently would leave its output out
+		// of the justice transaction.
+		parsedTypes, err := ReadTlvStream(br, tlvStream)
 		if err != nil {
-			// We've reached the end when hitting an EOF.
-			if errors.Is(err, io.ErrUnexpectedEOF) {
-				break
-			}
-
 			return nil, err
 		}
 
